@@ -1,18 +1,26 @@
 (** C20 — a chain once reported fully valid can be activated again. Closed, instantiated machine.
 
-    FULL statements aimed at (kept visible):
-      full_validity_truthful : reachable s -> level b = CAN_BE_APPLIED -> applying root..b alone from the bootstrap state succeeds
-      reactivation           : ... -> b not invalidated -> setState s b = Ok (_, true) from any reachable s
-    PROVED for all states: the level logic of applyBlock — the fully-valid level is raised only on a fully valid parent
-    and only when the applied-block counter says nothing but root..parent is applied (full_level_guard); a block applied
-    next to another chain or on a MAYBE parent is never reported as fully valid by that application
-    (maybe_level_never_reported_full); the unapply discipline (applied, parent applied, no applied child);
-    and (Properties_C01) P = effects of the applied blocks at that moment.
-    GAP (hence _partial): the counting argument "counter = height - root height and applied set parent-closed => applied
-    set = root..parent", which turns the guard into truthfulness and re-activation; covered by the re-activation oracle
-    on the implementation and by the exact comparison of validity levels with the model. *)
+    PROVED:
+      * C20_full_validity_truthful: in every state reachable by a history of connectBlock / setState calls (any tree,
+        any payloads, any failing switches, back and forth), every block at level CAN_BE_APPLIED replays successfully
+        ALONE - the bodies of root..b executed from the bootstrap state all succeed. (Invariant over all block-level
+        steps; key step: the level is raised only when the as-coded counter check holds, the counting argument then
+        shows that exactly root..parent is applied, so P is a permutation of the parent's replay, and success of a
+        command group does not depend on the order of P.)
+      * the level logic of applyBlock for ALL states (also inside comparisons): the fully-valid level is raised only on
+        a fully valid parent and only when the applied-block counter says nothing but root..parent is applied
+        (C20_full_validity_truthful_partial = the guard); a block applied next to another chain or on a MAYBE parent
+        is never reported as fully valid by that application (C20_maybe_level_never_reported_full);
+      * the unapply discipline (applied, parent applied, no applied child) (C20_unapply_order).
+    GAPS (hence _partial; full statements):
+      full_validity_truthful for histories that also contain comparePopScore (needs the quiet invariant through the
+        apply-both / unapplyWhile / re-apply dance, see Properties_C02.v);
+      reactivation : reachable s -> level b = CAN_BE_APPLIED -> b not invalidated -> setState s b = Ok (_, true)
+        (needs, besides truthfulness, FAILED_CHILD / level coherence of the tree and Abort-freedom of the walk).
+      Both are checked on the implementation by the re-activation oracle and by the exact comparison of validity
+      levels with the model. *)
 From Coq Require Import List ZArith NArith Bool.
-From VB Require Import Pop.SmDefs Pop.SmProofs.
+From VB Require Import Pop.SmDefs Pop.SmProofs Pop.SmWf Pop.SmTruth.
 Local Open Scope Z_scope.
 
 Theorem C20_full_validity_truthful_partial :
@@ -51,3 +59,11 @@ Theorem C20_reactivation_partial :
     exists b, find ccmd (blocks _ _ s') to = Some b /\ valid_upto _ b L_FULL = true.
 Proof. exact setState_true_outcome. Qed.
 Print Assumptions C20_reactivation_partial.
+
+Theorem C20_full_validity_truthful :
+  forall base r h ops s,
+    no_compare ops -> run (c_init r h base) ops = Ok s ->
+    forall b, In b (blocks _ _ s) -> N.leb L_FULL (b_lvl _ b) = true ->
+              exists p', replay (bgs s (depth s (b_id _ b)) (b_id _ b)) base = Some p'.
+Proof. exact full_validity_truthful. Qed.
+Print Assumptions C20_full_validity_truthful.
